@@ -43,7 +43,9 @@ Definition init (t : Z) : st :=
 Inductive label :=
 | Enter (dl : Z)              (* ClientTimeoutSink.AsyncProcessRequest with this absolute deadline *)
 | Tick (t : Z)
-| Fire                        (* the timer action (_TimeoutHelper) runs: requires now >= deadline *)
+| Fire                        (* the timer action (_TimeoutHelper) runs: requires now >= deadline; sets the event *)
+| TimedOut                    (* ... and its TimeoutError reaches the caller (unless something else completed the call
+                                 re-entrantly while the message travelled up the sink stack) *)
 | Complete                    (* the call completes with something else than the timer (reply, error) *)
 | ToSerial                    (* serial SocketTransportSink.AsyncProcessRequest accepted the request *)
 | ToSendQ (tag : Z)           (* mux AsyncProcessRequest: tag acquired, frame queued *)
@@ -81,9 +83,15 @@ Definition step (s : st) (l : label) : option st :=
       if not_entered (p s) || (now s <? deadline s) || evt s || completed s then None else
       (* evt.Set(True) first (spawns the notifier greenlet that will run the subscribed timeout_proc),
          then TimeoutError is posted *)
-      Some {| now := now s; deadline := deadline s; p := p s; evt := true; handed := true; completed := true;
+      Some {| now := now s; deadline := deadline s; p := p s; evt := true; handed := handed s; completed := completed s;
               subscribed := false; tagkey := tagkey s; notif := subscribed s; conn_open := conn_open s;
               owed := owed s; writes := writes s; discards := discards s |}
+  | TimedOut =>
+      if evt s && negb (completed s) then
+        Some {| now := now s; deadline := deadline s; p := p s; evt := evt s; handed := true; completed := true;
+                subscribed := subscribed s; tagkey := tagkey s; notif := notif s; conn_open := conn_open s;
+                owed := owed s; writes := writes s; discards := discards s |}
+      else None
   | Complete =>
       if not_entered (p s) || completed s then None else
       Some {| now := now s; deadline := deadline s; p := p s; evt := evt s; handed := handed s; completed := true;
